@@ -328,6 +328,36 @@ def _install_readdir_permutation(seed):
 # ---------------------------------------------------------------------------
 
 
+def _install_kill_at_op(k, root):
+    """die (SIGKILL) just BEFORE the k-th file-system mutation under `root`: an open for writing, a rename/replace,
+    a remove.  Complements RLIMIT_FSIZE (which tears a write in the middle) with crash points BETWEEN writes."""
+    state = {"n": 0}
+    root = os.path.realpath(root)
+
+    def under(p):
+        try:
+            p = os.path.realpath(os.fspath(p))
+        except Exception:
+            return False
+        return p == root or p.startswith(root + os.sep)
+
+    def hook(event, args):
+        hit = False
+        if event == "open":
+            path, mode, flags = args
+            writing = (isinstance(mode, str) and any(c in mode for c in "wax+")) or (
+                isinstance(flags, int) and flags & (os.O_WRONLY | os.O_RDWR | os.O_CREAT | os.O_TRUNC | os.O_APPEND))
+            hit = writing and isinstance(path, (str, bytes, os.PathLike)) and under(path)
+        elif event in ("os.rename", "os.remove", "os.rmdir", "shutil.move", "os.truncate"):
+            hit = any(isinstance(a, (str, bytes, os.PathLike)) and under(a) for a in args[:2])
+        if hit:
+            if state["n"] == k:
+                os.kill(os.getpid(), signal.SIGKILL)
+            state["n"] += 1
+
+    sys.addaudithook(hook)
+
+
 def _child_exit(code):
     try:
         import atexit
@@ -375,7 +405,9 @@ def launch(argv, cwd, env, out_path, fault=None, trace=None, proc="", readdir_se
             os.close(nul)
             sys.stdout = os.fdopen(1, "w", buffering=1, closefd=False)
             sys.stderr = os.fdopen(2, "w", buffering=1, closefd=False)
-            if fault is not None:
+            if fault is not None and fault["kind"] == "kill_at_op":
+                _install_kill_at_op(int(fault["k"]), fault["root"])
+            elif fault is not None:
                 n = int(fault["n"])
                 resource.setrlimit(resource.RLIMIT_FSIZE, (n, n))
                 if fault["kind"] == "torn_kill":
